@@ -531,9 +531,12 @@ def inline_new_helpers(fn, resolve, is_new, depth=2):
         tag = '_h%d_' % counter[0]
         a = g.args
         params = [x.arg for x in a.args]
-        if any(isinstance(x, ast.Starred) for x in call.args) or any(k.arg is None for k in call.keywords) or len(call.args) > len(params):
+        pos_args = list(call.args)
+        if getattr(g, '_bound_self', None) is not None:
+            pos_args = [g._bound_self] + pos_args
+        if any(isinstance(x, ast.Starred) for x in pos_args) or any(k.arg is None for k in call.keywords) or len(pos_args) > len(params):
             return None
-        binding = dict(zip(params, call.args))
+        binding = dict(zip(params, pos_args))
         for k in call.keywords:
             if k.arg not in params or k.arg in binding:
                 return None
@@ -554,18 +557,41 @@ def inline_new_helpers(fn, resolve, is_new, depth=2):
                     n.id = tag + n.id
                 elif isinstance(n, ast.ExceptHandler) and n.name in locs:
                     n.name = tag + n.name
-        out = [ast.Assign(targets=[ast.Name(id=tag + p_, ctx=ast.Store())], value=clone(binding[p_])) for p_ in params]
+        # a parameter that the helper never re-binds and whose argument is a plain reference (names, attributes, subscripts, constants)
+        # is substituted directly; anything else is bound once, like the call would
+        rebound = {n.id for st in body for n in ast.walk(st) if isinstance(n, ast.Name) and isinstance(n.ctx, (ast.Store, ast.Del))}
+        out = []
+        direct = {}
+        for p_ in params:
+            arg = binding[p_]
+            plain = all(isinstance(x, (ast.Name, ast.Attribute, ast.Subscript, ast.Constant, ast.expr_context, ast.Tuple, ast.Slice, ast.UnaryOp, ast.USub))
+                        for x in ast.walk(arg))
+            if plain and (tag + p_) not in rebound:
+                direct[tag + p_] = arg
+            else:
+                out.append(ast.Assign(targets=[ast.Name(id=tag + p_, ctx=ast.Store())], value=clone(arg)))
+        if direct:
+            class D(ast.NodeTransformer):
+                def visit_Name(self, n):
+                    if n.id in direct and isinstance(n.ctx, ast.Load):
+                        return ast.copy_location(clone(direct[n.id]), n)
+                    return n
+            body = [D().visit(st) for st in body]
         last = body[-1] if body else None
         if isinstance(last, ast.Return):
             body = body[:-1]
             val = last.value if last.value is not None else ast.Constant(value=None)
             if how == 'assign':
                 tail = [ast.Assign(targets=[clone(t) for t in target], value=val)]
+            elif how == 'aug':
+                tail = [ast.AugAssign(target=clone(target[0]), op=target[1], value=val)]
             elif how == 'return':
                 tail = [ast.Return(value=val)]
             else:
                 tail = [ast.Expr(value=val)] if not isinstance(val, (ast.Name, ast.Constant, ast.Tuple)) else []
         else:
+            if how == 'aug':
+                return None
             if how == 'assign':
                 tail = [ast.Assign(targets=[clone(t) for t in target], value=ast.Constant(value=None))]
             elif how == 'return':
@@ -592,6 +618,8 @@ def inline_new_helpers(fn, resolve, is_new, depth=2):
                 call, how, target = st.value, 'assign', st.targets
             elif isinstance(st, ast.Return) and isinstance(st.value, ast.Call):
                 call, how = st.value, 'return'
+            elif isinstance(st, ast.AugAssign) and isinstance(st.value, ast.Call):
+                call, how, target = st.value, 'aug', (st.target, st.op)
             elif isinstance(st, ast.Expr) and isinstance(st.value, ast.Call):
                 call, how = st.value, 'expr'
             rep = None
